@@ -204,7 +204,47 @@ def _bind(helper, call, is_method, recv, caller_locals):
         body = body[1:]
     sub = _Subst(mapping, renames)
     body = [sub.visit(st) for st in body]
+    body = _fold_const_ifs(body) or [ast.Pass(lineno=call.lineno, col_offset=call.col_offset)]
     return prologue, body
+
+
+def _const_test(test):
+    ''' truth of a test that is a constant once the arguments of this call are in place (flag parameters); else None '''
+    if isinstance(test, ast.Constant) and (isinstance(test.value, (bool, int, str, bytes)) or test.value is None):
+        return bool(test.value)
+    if isinstance(test, ast.UnaryOp) and isinstance(test.op, ast.Not):
+        inner = _const_test(test.operand)
+        return None if inner is None else not inner
+    if isinstance(test, ast.Compare) and len(test.ops) == 1 and isinstance(test.ops[0], (ast.Is, ast.IsNot)) and \
+            isinstance(test.left, ast.Constant) and isinstance(test.comparators[0], ast.Constant) and test.comparators[0].value is None:
+        res = test.left.value is None
+        return res if isinstance(test.ops[0], ast.Is) else not res
+    return None
+
+
+def _fold_const_ifs(stmts):
+    ''' `if True: A else: B` -> A: a helper called with a literal flag is, at that call, the arm the flag selects '''
+    out = []
+    for st in stmts:
+        if isinstance(st, ast.If):
+            c = _const_test(st.test)
+            if c is not None:
+                out.extend(_fold_const_ifs(st.body if c else st.orelse))
+                continue
+            st.body = _fold_const_ifs(st.body) or [ast.Pass(lineno=st.lineno, col_offset=st.col_offset)]
+            st.orelse = _fold_const_ifs(st.orelse)
+        elif isinstance(st, (ast.For, ast.While, ast.With)):
+            st.body = _fold_const_ifs(st.body) or [ast.Pass(lineno=st.lineno, col_offset=st.col_offset)]
+            if hasattr(st, 'orelse'):
+                st.orelse = _fold_const_ifs(st.orelse)
+        elif isinstance(st, ast.Try):
+            st.body = _fold_const_ifs(st.body) or [ast.Pass(lineno=st.lineno, col_offset=st.col_offset)]
+            for h in st.handlers:
+                h.body = _fold_const_ifs(h.body) or [ast.Pass(lineno=st.lineno, col_offset=st.col_offset)]
+            st.orelse = _fold_const_ifs(st.orelse)
+            st.finalbody = _fold_const_ifs(st.finalbody)
+        out.append(st)
+    return out
 
 
 def _status_test(test, var):
